@@ -5,17 +5,17 @@ from .rules import r1, r3, r5, r2e, r4, lexer, r9, r13, r11, r12, r14, c10, r8, 
 PROPS = {
     "C04": [lambda ctx, rep: r9.rule_R9(ctx, rep, only=["prune_to_minimal"]),
             lambda ctx, rep: r11.rule_R11_switch(ctx, rep, funcs=["prune_to_minimal", "traverse_pruned_translation"]),
-            r13.rule_R13_dedupe, r13.rule_cost_marks, r13.rule_T4, r12.rule_R1c],
+            r13.rule_R13_dedupe, r13.rule_collect, r13.rule_cost_marks, r13.rule_T4, r12.rule_R1c],
     "C05": [lambda ctx, rep: r9.rule_R9(ctx, rep, only=["yaep_parse"]), r9.rule_ambiguity_writers, r15.rule_R15],
-    "C01": [r6.rule_R6_flags, r6.rule_R6_debug, r7.rule_T3, c10.rule_fixpoints, r15.rule_R15, r20.rule_R20, r21.rule_R21],
+    "C01": [r6.rule_R6_flags, r6.rule_R6_debug, r7.rule_T3, c10.rule_fixpoints, r15.rule_R15, r20.rule_R20, r21.rule_R21, r21.rule_R21_dedupe],
     "C03": [c03.rule_alt_not_alt, c03.rule_candidates, c03.rule_reuse, r20.rule_R20_dag, r7.rule_translation_reading, r13.rule_births, r15.rule_R15, r21.rule_R21],
     "C02": [r7.rule_T1, r7.rule_translation_reading, r13.rule_births, r4.rule_R4d, r13.rule_R13_marks, r12.rule_R1c],
     "C06": [r7.rule_T3, r5.rule_token_intake, r7.rule_T1, r15.rule_R15],
-    "C09": [r6.rule_R6_debug, r5.rule_setters, r12.rule_R12, r15.rule_R15, c10.rule_fixpoints, r20.rule_R20],
+    "C09": [r6.rule_R6_debug, r5.rule_setters, r12.rule_R12, r15.rule_R15, c10.rule_fixpoints, r20.rule_R20, r21.rule_R21_dedupe],
     "C10": [r20.rule_R20_symbols, c10.rule_code_table, c10.rule_fixpoints, r5.rule_undefined_typestate, r2e.rule_R2e, r5.rule_parse_entry],
     "C11": [c11.rule_implicit_codes, c11.rule_declaration_merge, c11.rule_costs_and_replay, lexer.rule_R4b, r4.rule_R4a, r14.rule_R14],
     "C12": [r14.rule_R14, r12.rule_R12, r4.rule_R4a, lexer.rule_R4b, r4.rule_R4c, r4.rule_R4d, r5.rule_setters, r3.rule_R3c, c10.rule_code_table, c10.rule_fixpoints, r16.rule_index_spaces, r16.rule_pl_capacity, r21.rule_R21],
-    "C13": [r13.rule_births, r13.rule_T4, r13.rule_release_nonnull, r13.rule_R13_dedupe, r13.rule_R13_marks, r11.rule_R11_switch, r11.rule_R11_sweep, r5.rule_parse_entry, r12.rule_R1c, r7.rule_T1],
+    "C13": [r13.rule_births, r13.rule_T4, r13.rule_release_nonnull, r13.rule_collect, r13.rule_compaction, r13.rule_R13_dedupe, r13.rule_R13_marks, r11.rule_R11_switch, r11.rule_R11_sweep, r5.rule_parse_entry, r12.rule_R1c, r7.rule_T1],
     "C14": [r3.rule_R3e, r1.rule_R1a, r1.rule_R1b, r12.rule_R1c, r12.rule_R12, r2e.rule_R2e, r5.rule_undefined_typestate],
     "C15": [r5.rule_defaults, r5.rule_setters, r5.rule_parse_entry, r5.rule_token_intake, r5.rule_undefined_typestate, r3.rule_R3d, r1.rule_R1a, r4.rule_R4c, r4.rule_R4d],
     "C16": [r8.rule_R8, r8.rule_R8_probes, r8.rule_forwarding, r8.rule_R2f, r17.rule_R17, r17.rule_R17_cxx, r19.rule_R19, r19.rule_R19_cxx, r18.rule_R18, r18.rule_R18_cxx],
@@ -27,4 +27,5 @@ PROPS = {
 # rules that are independent of the C container idioms and are re-run on libyaep++ in the thorough tier
 CXX_OK = set(["rule_R1a", "rule_R3a", "rule_R3b", "rule_R3c", "rule_R3d", "rule_defaults", "rule_setters", "rule_parse_entry", "rule_token_intake",
               "rule_undefined_typestate", "rule_R9", "rule_R12", "rule_R1c", "rule_births", "rule_T4", "rule_R13_marks", "rule_R11_switch", "rule_R11_sweep",
-              "rule_R6_flags", "rule_T1", "rule_T3", "rule_fixpoints", "rule_implicit_codes", "rule_costs_and_replay"])
+              "rule_R6_flags", "rule_T1", "rule_T3", "rule_fixpoints", "rule_implicit_codes", "rule_costs_and_replay", "rule_collect", "rule_compaction", "rule_release_nonnull",
+              "rule_alt_not_alt", "rule_candidates", "rule_reuse", "rule_R21", "rule_index_spaces", "rule_pl_capacity"])
